@@ -30,6 +30,7 @@ type Contract struct {
 	Params  []string
 	Results []string
 	Clauses []*Clause
+	Serves  []string // properties whose cone contains this contract as a whole
 	Trusted bool // "trusted": contract is assumed, body not verified (listed in evidence)
 	Layer   string
 	File    string
@@ -58,7 +59,7 @@ type Lemma struct {
 
 var propRe = regexp.MustCompile(`C[0-9]{2}`)
 var headRe = regexp.MustCompile(`^func\s+(?:\(\s*\*?\s*([A-Za-z_][A-Za-z0-9_]*)\s*\)\s*)?([A-Za-z_][A-Za-z0-9_$]*)\s*\(([^)]*)\)\s*(?:\(([^)]*)\))?\s*$`)
-var clauseRe = regexp.MustCompile(`^(requires|ensures|modifies|emits|calls|invariant|assigns|trusted|layer|loop)\b\s*(?:\[([^\]]*)\])?\s*(.*)$`)
+var clauseRe = regexp.MustCompile(`^(requires|ensures|modifies|emits|calls|invariant|assigns|trusted|layer|loop|serves)\b\s*(?:\[([^\]]*)\])?\s*(.*)$`)
 
 type ContractFile struct {
 	Contracts []*Contract
@@ -175,6 +176,9 @@ func ParseContractFile(path string) (*ContractFile, error) {
 			continue
 		case "layer":
 			cur.Layer = rest
+			continue
+		case "serves":
+			cur.Serves = append(cur.Serves, propRe.FindAllString(rest, -1)...)
 			continue
 		case "loop":
 			// "loop N invariant[label] expr" or "loop N assigns a, b"
